@@ -561,10 +561,52 @@ RULES = {
     "R3a": Rule("R3a", "(X) + (Y) -> Add::add((X), (Y))", "( $$x ) + ( $$y )", "Add :: add ( ( $$x ) , ( $$y ) )"),
     "R3s": Rule("R3s", "(X) - (Y) -> Sub::sub((X), (Y))", "( $$x ) - ( $$y )", "Sub :: sub ( ( $$x ) , ( $$y ) )"),
     "R3m": Rule("R3m", "(X) * (Y) -> Mul::mul((X), (Y))", "( $$x ) * ( $$y )", "Mul :: mul ( ( $$x ) , ( $$y ) )"),
+    # reversed mutable iteration over a Vec/slice -> index loop counting down (definition of Rev<IterMut>)
+    "R10r": Rule("R10r", "for d in V.iter_mut().rev() { BODY } -> { let mut i__ = V.len(); while i__ > 0 { i__ -= 1; let d = &mut V.as_mut_slice()[i__]; BODY } }",
+                 "for $d in $$v . iter_mut ( ) . rev ( ) { $$body }",
+                 "{ let mut i__ = $$v . len ( ) ; while i__ > 0 { i__ -= 1 ; let $d = & mut $$v . as_mut_slice ( ) [ i__ ] ; $$body } }"),
+    "R4c": Rule("R4c", "for &x in I { S } -> for x_r__ in I { let x = *x_r__; S }  (Copy element type)",
+                "for & $x in $$i { $$s }", "for x_r__ in $$i { let $x = * x_r__ ; $$s }"),
+    "R0c": Rule("R0c", "cfg!(any(target_arch = \"x86\", target_arch = \"x86_64\")) -> true (fixed target)",
+                'cfg ! ( any ( target_arch = "x86" , target_arch = "x86_64" ) )', "true"),
     "R4b": Rule("R4b", "for (a, &b) in I { S } -> for (a, b_r__) in I { let b = *b_r__; S }",
                 "for ( $a , & $b ) in $$i { $$s }",
                 "for ( $a , b_r__ ) in $$i { let $b = * b_r__ ; $$s }"),
 }
+
+
+_UFCS = {"+": ("Add", "add"), "-": ("Sub", "sub"), "*": ("Mul", "mul"), "/": ("Div", "div"), "%": ("Rem", "rem"),
+         "&": ("BitAnd", "bitand"), "|": ("BitOr", "bitor"), "^": ("BitXor", "bitxor"), "<<": ("Shl", "shl"), ">>": ("Shr", "shr")}
+
+
+def apply_ufcs(ss, specs, log, where):
+    """R3: `X op Y` (X, Y identifiers named in the unit directive) -> `Trait::method(X, Y)` -- Rust's definition of
+    the operator; needed where Verus fails on reference operands of user types."""
+    want = []
+    for sp in specs:
+        m = re.match(r"(\w+)(<<|>>|[-+*/%&|^])(\w+)$", sp)
+        if not m:
+            raise ExtractError("bad ufcs spec " + sp)
+        want.append((m.group(1), m.group(2), m.group(3)))
+    out = []
+    i = 0
+    while i < len(ss):
+        hit = None
+        if i + 2 < len(ss):
+            for (x, op, y) in want:
+                if ss[i] == x and ss[i + 1] == op and ss[i + 2] == y and (i == 0 or ss[i - 1] not in (".", "::")) \
+                        and (i + 3 >= len(ss) or ss[i + 3] not in (".", "(", "[", "::")):
+                    hit = (x, op, y)
+                    break
+        if hit:
+            tr, me = _UFCS[hit[1]]
+            out.extend([tr, "::", me, "(", hit[0], ",", hit[2], ")"])
+            log.append({"rule": "R3", "function": where, "from": "%s %s %s" % hit, "to": "%s::%s(%s, %s)" % (tr, me, hit[0], hit[2])})
+            i += 3
+        else:
+            out.append(ss[i])
+            i += 1
+    return out
 
 
 def apply_mut_self(ss, log, where):
